@@ -355,12 +355,21 @@ func (c *Ctx) observeOpenAPI(s c03Scenario) (verb, path string, params []string,
 		}
 		return "⟦missing field " + f + "⟧"
 	}
-	if l, ok := st.Fields["pathParams"].(VList); ok {
+	switch l := st.Fields["pathParams"].(type) {
+	case VList:
+		if l.Elems == nil && l.Key != "" {
+			return "", "", nil, pos, "the path-parameter list of extractMethodHTTPInfo is not decidable (" + l.key() + ")"
+		}
 		for _, e := range l.Elems {
 			if sv, ok := e.(VStr); ok {
 				params = append(params, keyText(sv.Segs))
+			} else {
+				return "", "", nil, pos, "an element of the path-parameter list of extractMethodHTTPInfo is not a string (" + e.key() + ")"
 			}
 		}
+	case VNil, nil:
+	default:
+		return "", "", nil, pos, "the path-parameter list of extractMethodHTTPInfo is not a list value (" + l.key() + ")"
 	}
 	return str("httpMethod"), str("path"), params, pos, ""
 }
